@@ -129,6 +129,7 @@ def refit_state(mods, c, stage):
     c.assume(syp.e <= sxp.e)
     pbb = real('pixbeam_b')
     c.assume(pbb.e > 0)
+    c.assume(real('pixbeam_a').e >= pbb.e)
 
     class WH:
         def sky2pix(self, pos):
@@ -181,6 +182,10 @@ def h_refit2(mods, stage_mode):
         for nm in ('xo', 'yo', 'sx'):
             p = P['c0_' + nm]
             c.oblige(tag + ':%s bounds contain the value' % nm, z3.And(L(p.min) <= L(p.value), L(p.value) <= L(p.max)))
+        # a fixed parameter outside its bounds is silently clipped by lmfit: a minor axis at least the beam's (what resize
+        # guarantees) must lie within the sy bounds whatever the beam's elongation
+        psy = P['c0_sy']
+        c.oblige(tag + ':sy bounds contain the value (minor axis >= beam minor axis)', z3.Implies(V['syp'].e >= z3.Real('pixbeam_b'), z3.And(L(psy.min) <= L(psy.value), L(psy.value) <= L(psy.max))))
         c.oblige(tag + ':amp is the catalogued peak and sx/sy the catalogued shape in sigma units', z3.And(L(P['c0_amp'].value) == z3.Real('peak'), L(P['c0_sx'].value) == V['sxp'].e * V['F2C'].e, L(P['c0_sy'].value) == V['syp'].e * V['F2C'].e))
         st = core.lift(integer('stage')) if stage_mode == 'sym' else z3.IntVal(stage_mode)
         vb = lambda v: core.lb(v) if isinstance(v, (SB, bool)) else z3.BoolVal(bool(v))
@@ -319,6 +324,119 @@ def h_copyback(stage):
     return h
 
 
+# ------------------------------------------------------------------ K-presence (data under each component of the cut-out)
+def presence_loop():
+    """the loop of _refit_islands that takes `square = idata[a:b, c:d]` around each component and tests it with isfinite:
+    its statements up to that assignment (logging dropped)"""
+    f = slicer.get_function(F, '_refit_islands', 'SourceFinder')
+    for loop in [n for n in ast.walk(f) if isinstance(n, ast.For)]:
+        for k, st in enumerate(loop.body):
+            if (isinstance(st, ast.Assign) and isinstance(st.value, ast.Subscript) and isinstance(st.value.value, ast.Name) and isinstance(st.value.slice, ast.Tuple)
+                    and len(st.value.slice.elts) == 2 and all(isinstance(e, ast.Slice) for e in st.value.slice.elts)
+                    and any(isinstance(x, ast.If) and 'isfinite' in ast.unparse(x.test) for x in loop.body[k + 1:])):
+                body = [b for b in loop.body[:k + 1] if not isinstance(b, ast.Expr)]
+                new = ast.For(target=loop.target, iter=loop.iter, body=body, orelse=[])
+                mod = ast.Module(body=[new], type_ignores=[])
+                ast.fix_missing_locations(mod)
+                return compile(mod, '<presence loop of _refit_islands>', 'exec'), st.value.value.id, ast.unparse(new)
+    raise slicer.AnchorMissing('_refit_islands: no loop taking a 2-D box of the cut-out that is then tested with isfinite')
+
+
+def h_presence():
+    def h(c):
+        code, arrname, text = presence_loop()
+        Hc, Wc = integer('Hc'), integer('Wc')
+        c.assume(Hc.e >= 1)
+        c.assume(Wc.e >= 1)
+        c.assume(Hc.e <= 200)
+        c.assume(Wc.e <= 200)
+        cx, cy = real('cx'), real('cy')
+        rx, ry = z3.Int('rx'), z3.Int('ry')          # the pixel the component is centred in
+        half = z3.RealVal('1/2')
+        c.assume(z3.And(cx.e >= rx - half, cx.e <= rx + half, cy.e >= ry - half, cy.e <= ry + half))
+        c.assume(z3.And(rx >= 0, rx < Hc.e, ry >= 0, ry < Wc.e))
+
+        class Box:
+            shape = (Hc, Wc)
+            taken = []
+
+            def __getitem__(self, key):
+                Box.taken.append(key)
+                return self
+        Box.taken = []
+        params = {'components': r2c.Par(1, False), 'c0_xo': r2c.Par(cx), 'c0_yo': r2c.Par(cy)}
+
+        class Self:
+            log = loader.NullLog()
+        env = dict(core.BUILTINS)
+        env.update({'np': loader.NPProxy(), 'params': params, arrname: Box(), 'self': Self()})
+        exec(code, env)
+        ok = len(Box.taken) == 1 and isinstance(Box.taken[0], tuple) and len(Box.taken[0]) == 2
+        c.oblige('presence:one 2-D box per component', z3.BoolVal(ok))
+        if not ok:
+            return dict()
+        a, b = Box.taken[0]
+        L = core.lift
+        x0, x1, y0, y1 = L(a.start), L(a.stop), L(b.start), L(b.stop)
+        c.oblige('presence:the box lies within the cut-out on each axis', z3.And(x0 >= 0, x1 <= Hc.e, y0 >= 0, y1 <= Wc.e))
+        c.oblige('presence:the box contains the pixel the component is centred in (wherever it is in the cut-out)', z3.And(x0 <= rx, rx < x1, y0 <= ry, ry < y1))
+        return dict(slice=text[:600])
+    return h
+
+
+def oracle_blend():
+    """real priorized stage 1 on an east-west blend of three sources fitted jointly (one island): the image is exactly the
+    model of the catalogue, so every flux must come back"""
+    from astropy.io import fits
+    sfm = loader.real('source_finder')
+    wh = loader.real('wcs_helpers')
+    models = loader.real('models')
+    d = tempfile.mkdtemp(prefix='c05b_', dir='/var/tmp')
+    try:
+        N, M = 60, 90
+        hdr = fits.Header()
+        hdr['NAXIS'] = 2
+        hdr['NAXIS1'], hdr['NAXIS2'] = M, N
+        hdr['CTYPE1'], hdr['CTYPE2'] = 'RA---SIN', 'DEC--SIN'
+        hdr['CRVAL1'], hdr['CRVAL2'] = 40.0, -30.0
+        hdr['CRPIX1'], hdr['CRPIX2'] = M / 2, N / 2
+        scale = 10.0 / 3600
+        hdr['CDELT1'], hdr['CDELT2'] = -scale, scale
+        hdr['BMAJ'], hdr['BMIN'], hdr['BPA'] = 4 * scale, 4 * scale, 0.0
+        helper = wh.WCSHelper.from_header(hdr)
+        for layout in ('east-west', 'north-south'):
+            cents = [(30.2, 30.4 + 9 * k) for k in range(3)] if layout == 'east-west' else [(18.3 + 9 * k, 45.1) for k in range(3)]
+            cat = []
+            img = real_np.zeros((N, M))
+            for k, (r0, c0) in enumerate(cents):
+                s = models.ComponentSource()
+                s.ra, s.dec = helper.pix2sky((r0 + 1, c0 + 1))
+                s.a, s.b, s.pa = 60.0, 50.0, 20.0 * k
+                s.peak_flux = 10.0 + 3 * k
+                s.island, s.source, s.uuid = 0, k, 'b%d' % k
+                s.psf_a, s.psf_b, s.psf_pa = 40.0, 40.0, 0.0
+                s.err_ra = s.err_dec = s.err_a = s.err_b = s.err_pa = 0.01
+                s.local_rms = 0.05
+                _, _, fx, fy, th = helper.sky2pix_ellipse((s.ra, s.dec), s.a / 3600, s.b / 3600, s.pa)
+                from checks import C14
+                img += C14.gauss_oracle((N, M), r0, c0, fx, fy, th, s.peak_flux)
+                cat.append(s)
+            fn = os.path.join(d, layout + '.fits')
+            fits.PrimaryHDU(img, header=hdr).writeto(fn, overwrite=True)
+            f = sfm.SourceFinder(log=logging.getLogger('c05'))
+            pr = f.priorized_fit_islands(fn, catalogue=copy.deepcopy(cat), rms=0.05, bkg=0.0, stage=1, cores=1, doregroup=False)
+            by = {s.uuid: s for s in pr}
+            for s in cat:
+                p = by.get(s.uuid)
+                if p is None or not (p.peak_flux == p.peak_flux) or abs(p.peak_flux / s.peak_flux - 1) > 1e-3:
+                    return True, 'blend-flux', '%s blend of three sources 9 px apart (one island): source %s peak %.4f comes back as %s' % (layout, s.uuid, s.peak_flux, 'missing' if p is None else '%.4f' % p.peak_flux)
+        return False, None, None
+    except Exception as e:
+        return True, 'raises-%s' % type(e).__name__, repr(e)[:300]
+    finally:
+        shutil.rmtree(d, ignore_errors=True)
+
+
 # ------------------------------------------------------------------ K-resize (no psf information)
 def h_resize_nopsf(mods, ratio_mode, with_helper):
     cl = mods['cluster']
@@ -419,12 +537,12 @@ def h_resize_psf(mods, same_psf, from_cat):
 
 
 # ------------------------------------------------------------------ replay oracle: real priorized runs on the noise-free model image
-def oracle(stages=(1, 2, 3), nsrc=9, nopsf=False, ratio=None, small=False):
+def oracle(stages=(1, 2, 3), nsrc=9, nopsf=False, ratio=None, small=False, beam=(4.0, 4.0)):
     sfm = loader.real('source_finder')
     flags = loader.real('flags')
     d = tempfile.mkdtemp(prefix='c05_', dir='/var/tmp')
     try:
-        fn, truth, hdr = C03.make_field(d, nsrc, seed=4)
+        fn, truth, hdr = C03.make_field(d, nsrc, seed=4, beam=beam)
         f = sfm.SourceFinder(log=logging.getLogger('c05'))
         blind = sorted(f.find_sources_in_image(fn, rms=0.05, bkg=0.0, cores=1, innerclip=20, outerclip=15))
         if len(blind) != nsrc:
@@ -497,6 +615,13 @@ def oracle_pairing():
         shutil.rmtree(d, ignore_errors=True)
 
 
+def refit_replay():
+    bad, cls, detail = oracle((1,))
+    if not bad:
+        bad, cls, detail = oracle((1,), beam=(5.4, 4.0))
+    return bad, cls, detail
+
+
 def run(rep):
     thorough = rep.tier == 'thorough'
     mods = r2c.sym_sf()
@@ -509,7 +634,7 @@ def run(rep):
     for sm in (['sym', 1, 2, 3] if thorough else ['sym', 2]):
         st, res = explore(h_refit2(mods, sm), workers=16, wall_s=900, max_paths=20000)
         rep.stats(st)
-        collect(rep, res, 'K-refit', lambda: oracle((1,)), dict(kind='priorized', stages=[1]))
+        collect(rep, res, 'K-refit', refit_replay, dict(kind='priorized-beam', stages=[1]))
     rep.end_kernel()
     rep.kernel('K-copyback', functions=[F + ':SourceFinder._refit_islands'], bounds='three components, any stage (symbolic integer)', assumes=['slice: the `for ns, s in zip(new_src, included_sources)` loop'])
     try:
@@ -522,6 +647,16 @@ def run(rep):
         st, res = explore(h_pairing(mods), workers=16, wall_s=600, max_paths=5000)
         rep.stats(st)
         collect(rep, res, 'K-copyback', lambda: oracle_pairing(), dict(kind='pairing'))
+    except slicer.AnchorMissing as e:
+        rep.inconc('anchor-missing %s' % e)
+    rep.end_kernel()
+    rep.kernel('K-presence', functions=[F + ':SourceFinder._refit_islands'], bounds='one component centred in any pixel of a cut-out of any shape up to 200x200 (symbolic integers), symbolic sub-pixel position',
+               assumes=['slice: the statements of the per-component loop up to `square = idata[a:b, c:d]` (located by role: a 2-D box of the cut-out that is then tested with isfinite)'],
+               outside=['the FWHM mask applied to the cut-out before this test'])
+    try:
+        st, res = explore(h_presence())
+        rep.stats(st)
+        collect(rep, res, 'K-presence', oracle_blend, dict(kind='blend'))
     except slicer.AnchorMissing as e:
         rep.inconc('anchor-missing %s' % e)
     rep.end_kernel()
@@ -547,14 +682,18 @@ def run(rep):
     rep.validated_runs(1)
     if bad:
         rep.finding('C05/K-copyback/%s' % cls, dict(kind='pairing'), detail)
-    for kw, w in ((dict(stages=(1, 2, 3)), dict(kind='priorized', stages=[1, 2, 3])), (dict(stages=(1,), small=True), dict(kind='priorized-small', stages=[1])), (dict(stages=(1,), nopsf=True), dict(kind='priorized-nopsf', ratio=None)), (dict(stages=(1,), nopsf=True, ratio=1.0), dict(kind='priorized-nopsf', ratio=1.0))):
+    bad, cls, detail = oracle_blend()
+    rep.validated_runs(2)
+    if bad:
+        rep.finding('C05/K-presence/%s' % cls, dict(kind='blend'), detail)
+    for kw, w in ((dict(stages=(1, 2, 3)), dict(kind='priorized', stages=[1, 2, 3])), (dict(stages=(1,), small=True), dict(kind='priorized-small', stages=[1])), (dict(stages=(1, 2), beam=(5.4, 4.0)), dict(kind='priorized-beam', stages=[1, 2])), (dict(stages=(1,), nopsf=True), dict(kind='priorized-nopsf', ratio=None)), (dict(stages=(1,), nopsf=True, ratio=1.0), dict(kind='priorized-nopsf', ratio=1.0))):
         bad, cls, detail = oracle(**kw)
         rep.validated_runs(1)
         if bad:
             k = 'K-resize-nopsf' if 'psf' in cls else ('K-resize-psf' if kw.get('small') else 'K-refit')
             rep.finding('C05/%s/%s' % (k, cls), w, detail)
     rep.end_kernel()
-    rep.not_decided += ['fluxes / positions / shapes equal the catalogue values after the fit (0.1 % / 0.01 pixel): replay oracle only', 'blended islands with several sources', 'regroup on/off equivalence']
+    rep.not_decided += ['fluxes / positions / shapes equal the catalogue values after the fit (0.1 % / 0.01 pixel): replay oracle only', 'blended islands with several sources (an east-west and a north-south triple in the replay oracle only)', 'regroup on/off equivalence']
 
 
 def collect(rep, res, kname, replay_fn, wit):
@@ -579,6 +718,10 @@ def replay(w):
         bad, cls, detail = oracle((1,), small=True)
     elif wit.get('kind') == 'priorized-nopsf':
         bad, cls, detail = oracle((1,), nopsf=True, ratio=wit.get('ratio'))
+    elif wit.get('kind') == 'blend':
+        bad, cls, detail = oracle_blend()
+    elif wit.get('kind') == 'priorized-beam':
+        bad, cls, detail = oracle(tuple(wit.get('stages', [1])), beam=(5.4, 4.0))
     else:
         bad, cls, detail = oracle(tuple(wit.get('stages', [1])))
     return bad, '%s: %s' % (cls, detail)
